@@ -124,6 +124,12 @@ pub fn build() -> Vec<TypeOps> {
 
 	t!(v, "derived", "ptr"; WrapDefault, Vec<WrapDefault>, Box<WrapDefault>, Option<WrapDefault>);
 
+	// --- zero-sized in memory but not on the wire; fixed-size user types with a non-native format
+	t!(v, "derived", "zst-wire"; Only, Vec<Only>, VecDeque<Only>, [Only; 3], [Only; 0], Box<Only>, LinkedList<Only>, Option<Only>, (Only, u8, Only), BTreeMap<u8, Only>, Box<[Only; 2]>, Vec<[Only; 2]>);
+	t!(v, "zst-wire"; Marker, Vec<Marker>, VecDeque<Marker>, [Marker; 4], Box<[Marker; 2]>, (u8, Marker), Vec<Option<Marker>>);
+	t!(v, "derived", "zst-wire"; TOnlyFirst, Box<TOnlyFirst>, [TOnlyFirst; 2], Arc<TOnlyFirst>, TOnlyLast, Box<TOnlyLast>, [TOnlyLast; 3], Rc<TOnlyLast>, Vec<TOnlyLast>);
+	t!(v, "custom-fixed"; Vec<BeU32>, [BeU32; 3], Box<[BeU32; 2]>, VecDeque<BeU32>, (BeU32, u8), Vec<[BeU32; 2]>);
+
 	// --- types that newly gaining a length declaration would be wrong for (probed at compile time)
 	t!(v; Box<Option<u8>>, Range<Compact<u64>>, RangeInclusive<Option<u16>>, [Option<bool>; 2], (Compact<u16>, u8), Box<Compact<u32>>, Arc<Option<u32>>);
 
